@@ -53,6 +53,18 @@ def run(ctx):
             evs.append(sc.ev_parse("r%dv%d" % (i, j), text.strip() if rnd.random() < 0.5 else text, want=want))
             if len(t[2]) > 0:
                 ctx.nontrivial.add(text)
+    # directed shapes: many empty aggregates (siblings, records of two), deep nesting, long runs of siblings
+    shapes = [["R", "", [["E%d" % (i % 3), "", []] for i in range(40)]],
+              ["LIST", "", [["REC", "", [["A", "", []], ["K", str(i), []], ["B", "", []]]] for i in range(20)]],
+              ["R", "", [["X", "1", []]] + [["EMPTY", "", []]] * 35 + [["Y", "2", []]]]]
+    deep = ["L", "x", []]
+    for i in range(45):
+        deep = ["N%d" % i, "", [deep]]
+    shapes.append(deep)
+    for k, t in enumerate(shapes):
+        want = sc.abstract(t)
+        for j, st in enumerate([None, "xml", "sgml"]):
+            evs.append(sc.ev_parse("shape%dv%d" % (k, j), sc.render(rnd, t, st), want=want))
     ctx.evaluations = len(evs)
     for e in evs[:1] + evs[-2:]:
         ctx.sample(sc.describe(e))
